@@ -119,7 +119,7 @@ Theorem C36_source_facts :
   gen_origsize_guard = 2%N /\ gen_origsize_guard_before_use = true /\
   (* source and destination may be one file ([append_config_at], [strip_at] compute the new
      content from the old state): the whole source is read before the destination is opened *)
-  gen_append_reads_source_before_opening_dst = true /\ gen_append_streams_source = false /\
+  gen_append_reads_source_before_opening_dst = true /\ gen_append_streams_source = false /\ gen_append_truncates_dst = true /\
   gen_strip_reads_original_before_writing_dst = true /\ gen_strip_streams_source = false.
 Proof. repeat split; reflexivity. Qed.
 Print Assumptions C36_source_facts.
